@@ -108,6 +108,12 @@ def exec_grammar(engine_extras: bool = False, opt_extras: bool = False, limit_ex
         A("scalar_correlated", 1, "SELECT a, (SELECT MAX(c) FROM y WHERE y.b = x.b) AS m FROM x"),
         A("scalar_where", 1, "SELECT a, b FROM x WHERE b = (SELECT MAX(b) FROM y)"),
         A("scalar_count_correlated", 1, "SELECT a, (SELECT COUNT(*) FROM y WHERE y.b = x.b) AS n FROM x"),
+        # correlated subqueries that mention two outer columns of the SAME NAME from different outer tables (x.b and y.b)
+        A("corr2.exists_or", 1, "SELECT x.a, y.c FROM x CROSS JOIN y WHERE EXISTS (SELECT 1 FROM y AS y2 WHERE y2.b = x.b OR y2.c = y.b)"),
+        A("corr2.exists_and", 1, "SELECT x.a, y.c FROM x CROSS JOIN y WHERE EXISTS (SELECT 1 FROM y AS y2 WHERE y2.b = x.b AND y2.c > y.b)"),
+        A("corr2.scalar_count", 1, "SELECT x.a, y.c, (SELECT COUNT(*) FROM y AS y2 WHERE y2.b = x.b AND y2.c >= y.b) AS n FROM x CROSS JOIN y"),
+        A("corr2.in_or", 1, "SELECT x.a, y.c FROM x CROSS JOIN y WHERE x.a IN (SELECT y2.c FROM y AS y2 WHERE y2.b = x.b OR y2.b = y.b)"),
+        A("corr2.scalar_max_join", 1, "SELECT x.a, (SELECT MAX(y2.c) FROM y AS y2 WHERE y2.b <> x.b OR y2.c = y.b) AS m FROM x JOIN y ON x.a = y.c"),
         A("cte", 1, "WITH t AS (SELECT a, b FROM x WHERE {sc}) SELECT a, b FROM t{order}"),
         A("cte_twice", 1, "WITH t AS (SELECT a, b FROM x WHERE {sc}) SELECT t1.a, t2.b FROM t AS t1 JOIN t AS t2 ON t1.b = t2.b"),
         A("cte_agg", 1, "WITH t AS (SELECT b, COUNT(*) AS n FROM x GROUP BY b) SELECT y.c, t.n FROM y {jk} t ON y.b = t.b"),
@@ -191,6 +197,9 @@ def exec_grammar(engine_extras: bool = False, opt_extras: bool = False, limit_ex
             # three-item join chains: first item (table / derived table or CTE with its own filter) x first join x second join x
             # what the second ON refers to x outer filter - all free menus, so every combination has cost 1
             A("chain3", 1, "{c3cte}SELECT s.a, y.c, x2.b FROM {c3first} {jk} y ON s.b = y.b {jk2} x AS x2 ON {c3on2}{c3where}"),
+            # derived-table body x how the outer query uses it (projection pruning / merging must keep the body's cardinality and
+            # NULL extension): 12 bodies x 6 uses, all free menus
+            A("dt", 1, "{dtuse}"),
             A("having.alias", 1, "SELECT a, SUM(b) AS s FROM x GROUP BY a HAVING SUM(b) > 1 AND a > 0"),
             A("order.derived", 1, "SELECT s.a, s.b FROM (SELECT a, b FROM x ORDER BY 2, 1) AS s ORDER BY 1, 2 LIMIT 2"),
             # predicate kind x subquery body: every uncorrelated body under every subquery predicate
@@ -225,6 +234,15 @@ def exec_grammar(engine_extras: bool = False, opt_extras: bool = False, limit_ex
             "subagg": [A("sa.max", 0, "SELECT MAX(c) FROM y"), A("sa.count_corr", 1, "SELECT COUNT(*) FROM y WHERE y.b = x.b"), A("sa.sum_corr", 1, "SELECT SUM(c) FROM y WHERE y.b = x.b"),
                        A("sa.max_corr_two", 1, "SELECT MAX(c) FROM y WHERE y.b = x.b AND y.c > x.a"), A("sa.count_distinct", 1, "SELECT COUNT(DISTINCT c) FROM y WHERE y.b = x.b"),
                        A("sa.min_where", 1, "SELECT MIN(c) FROM y WHERE c > 1"), A("sa.count_group", 1, "SELECT COUNT(*) FROM y WHERE y.b = x.b GROUP BY y.b")],
+            "dtuse": [A("u.unused_cross!", 0, "SELECT x.a FROM x CROSS JOIN ({dtbody}) AS q"), A("u.count!", 0, "SELECT COUNT(*) AS n FROM ({dtbody}) AS q"),
+                      A("u.used_cross!", 0, "SELECT x.a, q.s FROM x CROSS JOIN ({dtbody}) AS q"), A("u.left_used!", 0, "SELECT x.a, q.s FROM x LEFT JOIN ({dtbody}) AS q ON x.b = q.k"),
+                      A("u.left_unused!", 0, "SELECT x.a FROM x LEFT JOIN ({dtbody}) AS q ON x.b = q.k"), A("u.const_only!", 0, "SELECT 1 AS one FROM ({dtbody}) AS q")],
+            "dtbody": [A("b.plain!", 0, "SELECT b AS k, c AS s FROM y"), A("b.agg_bare!", 0, "SELECT SUM(c) AS s FROM y"), A("b.agg_expr!", 0, "SELECT SUM(c) * 2 AS s FROM y"),
+                       A("b.agg_coalesce!", 0, "SELECT COALESCE(SUM(c), 0) AS s FROM y"), A("b.agg_count_plus!", 0, "SELECT COUNT(*) + 1 AS s FROM y"),
+                       A("b.window!", 0, "SELECT SUM(c) OVER () AS s FROM y"), A("b.const!", 0, "SELECT b AS k, 1 AS s FROM y"),
+                       A("b.coalesce!", 0, "SELECT b AS k, COALESCE(c, 0) AS s FROM y"), A("b.distinct!", 0, "SELECT DISTINCT c AS s FROM y"),
+                       A("b.group!", 0, "SELECT c AS s FROM y GROUP BY c"), A("b.limit!", 0, "SELECT c AS s FROM y ORDER BY 1 LIMIT 1"),
+                       A("b.union_nested!", 0, "(SELECT b AS k, c AS s FROM y UNION SELECT a, b FROM x) UNION ALL SELECT a, b FROM x")],
             "c3cte": [A("c3.nocte", 0, "")],
             "c3first": [A("c3.table!", 0, "x AS s"), A("c3.derived_where!", 0, "(SELECT a, b FROM x WHERE a = 1) AS s"),
                         A("c3.derived_notnull!", 0, "(SELECT a, b FROM x WHERE b IS NOT NULL) AS s"), A("c3.derived_plain!", 0, "(SELECT a, b FROM x) AS s")],
